@@ -144,6 +144,7 @@ func genByName(n string) *generator {
 // child
 
 type child struct {
+	faults  []*faultServer // started on the first fault case
 	ts      *testServer
 	fx      *fixture
 	httpc   *http.Client
@@ -226,6 +227,9 @@ type stepOut struct {
 
 func (c *child) send(st step) stepOut {
 	limit := overrunLimit()
+	if st.limit > 0 {
+		limit = time.Duration(float64(st.limit) * loadFactor())
+	}
 	ctx, cancel := context.WithTimeout(context.Background(), limit+time.Second)
 	defer cancel()
 	c.ts.last.Store("")
@@ -291,7 +295,26 @@ func (c *child) send(st step) stepOut {
 	return out
 }
 
+var faultSeq int
+
 func (c *child) runCase(d caseDesc) caseResult {
+	if d.G == "fault" {
+		if c.faults == nil {
+			for i := 0; i < nFaultServers; i++ {
+				fs, err := startFaultServer(i)
+				if err != nil {
+					return caseResult{Class: clClient, Rec: fmt.Sprintf("1 %d 0 0", clClient), Note: "fault server: " + err.Error()}
+				}
+				c.faults = append(c.faults, fs)
+			}
+		}
+		faultSeq++
+		fmt.Fprintf(os.Stderr, "C19CASE %d\n", faultSeq)
+		t0 := time.Now()
+		res := c.runFault(d)
+		res.MS = time.Since(t0).Milliseconds()
+		return res
+	}
 	g := genByName(d.G)
 	if g == nil {
 		return caseResult{Class: clClient, Rec: fmt.Sprintf("1 %d 0 0", clClient), Note: "unknown generator " + d.G}
@@ -334,6 +357,7 @@ func (c *child) runCase(d caseDesc) caseResult {
 				}
 				st.rpc, st.wire = rpc, wire
 			}
+			fmt.Fprintf(os.Stderr, "C19STEP %s\n", clip(st.note, 300))
 			h.Write([]byte(st.rpc.name))
 			if st.http != nil {
 				h.Write([]byte(st.http.verb + st.http.path))
@@ -479,31 +503,56 @@ type proc struct {
 }
 
 type tailBuf struct {
-	mu sync.Mutex
-	b  []byte
+	mu       sync.Mutex
+	b        []byte
+	lastStep string // the last "C19STEP ..." line (a fatal stack dump can push it out of the tail)
+	crash    string // the first 2000 bytes from the first "fatal error:" / "panic:" on
 }
 
 func (t *tailBuf) Write(p []byte) (int, error) {
 	t.mu.Lock()
 	defer t.mu.Unlock()
 	t.b = append(t.b, p...)
+	s := string(t.b)
+	if i := strings.LastIndex(s, "C19STEP "); i >= 0 {
+		if j := strings.IndexByte(s[i:], '\n'); j >= 0 {
+			t.lastStep = s[i+len("C19STEP ") : i+j]
+		}
+	}
+	if len(t.crash) < 2000 {
+		i := strings.Index(s, "fatal error:")
+		if k := strings.Index(s, "panic:"); k >= 0 && (i < 0 || k < i) {
+			i = k
+		}
+		if i >= 0 {
+			t.crash = clip(s[i:], 2000)
+		}
+	}
 	if len(t.b) > 1<<16 {
 		t.b = t.b[len(t.b)-(1<<16):]
 	}
 	return len(p), nil
 }
 
+func (t *tailBuf) all() string {
+	t.mu.Lock()
+	defer t.mu.Unlock()
+	return string(t.b)
+}
+
 func (t *tailBuf) head(n int) string {
 	t.mu.Lock()
 	defer t.mu.Unlock()
-	s := string(t.b)
-	// the interesting part of a Go crash is its first lines
-	if i := strings.Index(s, "panic:"); i >= 0 {
-		s = s[i:]
-	} else if i := strings.Index(s, "fatal error:"); i >= 0 {
-		s = s[i:]
+	if t.crash != "" {
+		return clip(t.crash, n)
 	}
-	return clip(s, n)
+	return clip(string(t.b), n)
+}
+
+func (t *tailBuf) step() string {
+	t.mu.Lock()
+	defer t.mu.Unlock()
+	return t.lastStep
 }
 
 func startChild() (*proc, error) {
@@ -582,8 +631,9 @@ type runner struct {
 // fresh child before it is recorded: a true hang is deterministic, a slow answer on a loaded
 // machine is not.
 func (rn *runner) run(d caseDesc) {
-	class := rn.run1(d, d.W)
-	if class == clOverrun && !d.W {
+	noRetry := d.W || d.G == "fault" // a hang after an injected panic is classified by the oracle, not re-run
+	class := rn.run1(d, noRetry)
+	if class == clOverrun && !noRetry {
 		rn.w.Stat("overrun_first_attempts", 1)
 		if rn.run1(d, true) != clOverrun {
 			rn.w.Stat("overrun_not_reproduced", 1)
@@ -634,8 +684,30 @@ func (rn *runner) run1(d caseDesc, final bool) int {
 		}
 		rn.p.kill()
 		d.Crash = note + " | " + rn.p.stderr.head(1500)
+		rn0stderr := rn.p.stderr.all()
+		if st := rn.p.stderr.step(); st != "" && d.G != "fault" {
+			d.Note = "the process died during: " + st
+		}
 		rn.p = nil
 		if class == clOverrun && !final {
+			return class
+		}
+		if d.G == "fault" {
+			// the child died: the wrapper said on stderr under which recovery site it was panicking
+			p := faultDecode(d.V, rec.NewRand(d.S))
+			fired, site := 0, -1
+			tail := rn0stderr
+			if i := strings.LastIndex(tail, "C19CASE "); i >= 0 {
+				tail = tail[i:]
+				if j := strings.LastIndex(tail, "C19FAULT site="); j >= 0 {
+					fired = 1
+					fmt.Sscanf(tail[j:], "C19FAULT site=%d", &site)
+				}
+			}
+			w.Case(d, rec.Dec(faultRecord(p, fired, class, 0, site)))
+			w.Stat("class."+className[class], 1)
+			w.Stat("gen."+d.G, 1)
+			w.Stat(fmt.Sprintf("fault_crash_site:%d", site), 1)
 			return class
 		}
 		w.Case(d, rec.I(1), rec.I(class), rec.I(0), rec.I(0))
@@ -728,6 +800,15 @@ func main() {
 		step := 1
 		if o.Tier != "thorough" && g.variants > 40 && g.name != "tok_read" && g.name != "d_readpage" {
 			step = g.variants/40 + 1
+		}
+		if g.name == "fault" { // the probes, then a stride coprime to every parameter range
+			for v := nFaultVariants(); v < nFaultVariants()+nFaultProbes; v++ {
+				rn.run(caseDesc{G: g.name, S: r.Uint64(), V: v})
+			}
+			step = 97
+			if o.Tier == "thorough" {
+				step = 7
+			}
 		}
 		off := 0
 		if step > 1 {
